@@ -30,6 +30,8 @@ EXPLANATION_ADDED = (" (R2 also accepts a merge method of RegionVisual whose val
 EXPLANATION += EXPLANATION_ADDED
 EXPLANATION_ADDED3 = (" (R2c also) a fill flag stored in the visual dictionary reaches a Line2D as a fill-style name matplotlib accepts ('full'/'none'), never as the raw boolean.")
 EXPLANATION += EXPLANATION_ADDED3
+EXPLANATION_ADDED2 = (" (R5) `position - origin` is taken in floating point in every as_artist: the dataflow of C01.R9 with the origin (a caller's sequence, possibly an unsigned integer array) and array-valued positions (polygon vertices) as possibly-integer sources; scalar positions of the region itself are Python numbers (PixCoord unwraps scalars).")
+EXPLANATION += EXPLANATION_ADDED2
 TRUSTED = ['matplotlib Circle(xy, radius), Ellipse(xy, width, height, angle[deg]), Rectangle(xy, width, height, angle[deg] about xy), '
            'Polygon(xy n×2), Line2D(xs, ys), Arrow(x, y, dx, dy), Text(x, y, text), Path(vertices, codes)',
            'a path with an oppositely oriented inner outline renders a hole']
@@ -617,6 +619,36 @@ def r4(ctx):
     sub.flush('no write reaches the region, the origin or the caller\'s keywords on the as_artist / plot path', 'as_artist')
 
 
+def r5(ctx):
+    """the artist is placed at `position - origin` as real numbers: positions keep the dtype they were given (polygon
+    vertices may be an unsigned integer array) and the origin is whatever sequence the caller passes (possibly an unsigned
+    integer array), so a difference taken in their own dtype wraps around (uint16 vertices 1 - 2 = 65535; centre 3 minus
+    np.uint8(5) = 254) while contains() answers in float64 — the may-be-integer dataflow of C01.R9 over every as_artist with
+    the origin as a possibly-integer source."""
+    from .c01 import _DtypeLint
+    m = ctx.model
+    n = 0
+    for ci in m.region_classes('pixel'):
+        f = ci.methods.get('as_artist')
+        if f is None:
+            continue
+        params = [a.arg for a in f.node.args.args]
+        if 'origin' not in params:
+            continue
+        n += 1
+        lint = _DtypeLint(ctx, m, sums=True)
+        lint.fn(f, ['coord' if p_ == 'origin' else 'scalar' for p_ in params])
+        if lint.problems:
+            fi, node, text = lint.problems[0]
+            ctx.bad(f'{ci.name}.as_artist', 'origin-shift-dtype',
+                    f'{text}: the shift by the plot origin must be computed in floating point (np.subtract(..., dtype=float)), '
+                    'otherwise the artist of a region with unsigned integer vertices, or drawn at an unsigned integer origin, '
+                    'is placed at the wrapped-around position and no longer outlines the region', fi.loc(node))
+        else:
+            ctx.ok(f'{ci.name}.as_artist', 'position - origin is taken in floating point')
+    ctx.need(n >= 7, 'as_artist methods', f'only {n} with an origin parameter found')
+
+
 RULES = [
     RuleDef('R1', 'artist constructor arguments (8 artists)', r1, 8),
     RuleDef('R2', 'caller kwargs override the visual defaults', r2, 8),
@@ -625,4 +657,5 @@ RULES = [
     RuleDef('R2d', 'no stored keyword overrides a caller keyword of another name (Patch color vs edgecolor/facecolor)', r2d, 1),
     RuleDef('R3', 'annulus path: guard, hole orientation, roles, delegation', r3, 4),
     RuleDef('R4', 'as_artist does not modify the region, the origin or the keywords it is given (C13.R1 on the artist path)', r4, 1),
+    RuleDef('R5', 'position - origin is computed in floating point (no wrap-around for integer vertices / origins)', r5, 7),
 ]
